@@ -1,31 +1,24 @@
 #!/usr/bin/env python3
-"""prints the markdown table of DESIGN.md §10 from seeded/*/meta.json (and notes.md for the `needs` column)"""
-import glob, json, os, re
-
+"""print the markdown table of DESIGN §10 from seeded/*/meta.json"""
+import glob, json, os
 V = os.path.dirname(os.path.dirname(os.path.abspath(__file__)))
-rows = []
-for d in sorted(glob.glob(os.path.join(V, "seeded", "*", "meta.json"))):
-    m = json.load(open(d))
-    needs = (m.get("needs") or "").strip()
-    if not needs:
-        notes = os.path.join(os.path.dirname(d), "notes.md")
-        if os.path.exists(notes):
-            t = open(notes).read()
-            mm = re.search(r"(?is)needs? (?:in order )?to manifest[^\n]*\n+(.*?)(?:\n\s*\n|\n#)", t)
-            if mm:
-                needs = re.sub(r"\s+", " ", mm.group(1)).strip(" -*")[:260]
-    caught = []
-    for p, r in sorted((m.get("checks") or {}).items()):
-        if r.get("exit") == 1 and r.get("violations"):
-            v = r["violations"][0]
-            if v.endswith("no-failing-input-found"):
-                caught.append(f"{p} (no-failing-input-found: correspondence / proof obligation)")
-            else:
-                mm = re.search(r"replays/[^_]+_violation_(.*)\.json", v)
-                caught.append(f"{p} (failing input: {mm.group(1) if mm else '?'})")
-    missed = [p for p, r in sorted((m.get("checks") or {}).items()) if not (r.get("exit") == 1 and r.get("violations"))]
-    rows.append((m["id"], needs, "; ".join(caught) or "**not caught**", ", ".join(missed)))
-print("| Seeded change | Needs | Caught by (quick tier, seed 1) | Also run, silent |")
-print("|---------------|-------|-----------|------|")
-for r in rows:
-    print("| " + " | ".join(x.replace("|", "/") for x in r) + " |")
+print("| Seeded change | Needs | Caught by (quick tier, seed 1) |")
+print("|---------------|-------|-----------|")
+for d in sorted(glob.glob(os.path.join(V, "seeded", "C*"))):
+    m = json.load(open(os.path.join(d, "meta.json")))
+    name = os.path.basename(d)
+    tgt = m.get("breaks_property") or name[:3]
+    parts = []
+    ch = m.get("checks", {})
+    for p in [tgt] + sorted(k for k in ch if k != tgt):
+        c = ch.get(p)
+        if not c or c.get("exit") != 1 or not c.get("violations"):
+            continue
+        nf = all("no-failing-input-found" in v for v in c["violations"])
+        sig = "" if nf else c["violations"][0].split("replay=")[-1].split("/")[-1].replace(p + "_violation_", "").replace(".json", "")
+        parts.append(f"{p} (" + ("no-failing-input-found: correspondence/proof obligation" if nf else "failing input: " + sig) + ")")
+    note = ""
+    if m.get("obsolete"):
+        note = " *(patch no longer applies to HEAD; result from the tree it was written against)*"
+    needs = (m.get("needs") or "").replace("|", "/").replace("\n", " ")
+    print(f"| {name} | {needs} | {'; '.join(parts) or 'NOT CAUGHT'}{note} |")
